@@ -207,12 +207,637 @@ namespace sim
     return true;
   }
 
+  // ------------------------------------------------------------------ C07
+  namespace
+  {
+    // planar construction: horizontal offset and depth below the feature's min depth at
+    // along-surface distance s, plus the local dip (radians)
+    void slab_profile(const SlabMeta &m, double s, double &h, double &z, double &dip)
+    {
+      h = 0;
+      z = 0;
+      dip = m.seg_angles.empty() ? 0.5 : m.seg_angles[0][0] * M_PI / 180.0;
+      double left = s;
+      for (size_t i = 0; i < m.seg_lengths.size(); ++i)
+        {
+          const double L = m.seg_lengths[i];
+          const double a1 = m.seg_angles[i][0] * M_PI / 180.0, a2 = m.seg_angles[i][1] * M_PI / 180.0;
+          const double part = (i + 1 == m.seg_lengths.size()) ? left : std::min(left, L);
+          const int steps = 40;
+          for (int k = 0; k < steps; ++k)
+            {
+              const double sm = (k + 0.5) / steps * part;
+              const double a = a1 + (a2 - a1) * (L > 0 ? sm / L : 0);
+              h += std::cos(a) * part / steps;
+              z += std::sin(a) * part / steps;
+              dip = a;
+            }
+          left -= part;
+          if (left <= 0)
+            break;
+        }
+    }
+
+    void place_near_slab(const GenWorld &g, const SlabMeta &m, Rng &rng, double &x, double &y, double &depth, std::string &note)
+    {
+      // a point on the trench
+      const size_t nseg = m.trench.size() - 1;
+      const size_t si = rng.below(nseg);
+      const double t = rng.real(-0.05, 1.05);
+      const auto &a = m.trench[si], &b = m.trench[si + 1];
+      double bx = a[0] + t * (b[0] - a[0]), by = a[1] + t * (b[1] - a[1]);
+      // metres per natural unit at the base point
+      double ux = 1, uy = 1;
+      if (m.spherical)
+        {
+          uy = m.radius * M_PI / 180.0;
+          ux = uy * std::max(0.05, std::cos(by * M_PI / 180.0));
+        }
+      // horizontal unit normal of the trench, pointing to the dip-point side (in metres)
+      double tx = (b[0] - a[0]) * ux, ty = (b[1] - a[1]) * uy;
+      const double tl = std::sqrt(tx * tx + ty * ty);
+      tx /= (tl > 0 ? tl : 1);
+      ty /= (tl > 0 ? tl : 1);
+      double nx = -ty, ny = tx;
+      const double dx = (m.dip_point[0] - bx) * ux, dy = (m.dip_point[1] - by) * uy;
+      if (nx * dx + ny * dy < 0)
+        {
+          nx = -nx;
+          ny = -ny;
+        }
+      const double sel = rng.real();
+      double s;
+      if (sel < 0.25)
+        {
+          s = m.total_length * rng.real(0.85, 1.1); // the deep end, where the depth cut-off acts
+          note = "deep_end";
+        }
+      else if (sel < 0.35)
+        {
+          s = m.total_length * rng.real(-0.02, 0.1);
+          note = "top_end";
+        }
+      else
+        {
+          s = m.total_length * rng.real(0, 1);
+          note = "placed";
+        }
+      double h, z, dip;
+      slab_profile(m, std::max(0.0, s), h, z, dip);
+      const double q = m.fault ? m.max_thickness * rng.real(-0.7, 0.7) : m.max_thickness * rng.real(-0.2, 1.2);
+      h += q * (-std::sin(dip));
+      z += q * std::cos(dip);
+      x = bx + h * nx / ux;
+      y = by + h * ny / uy;
+      depth = m.min_depth + z;
+      if (m.spherical)
+        {
+          y = std::max(-89.9, std::min(89.9, y));
+        }
+      (void) g;
+    }
+  }
+
+  bool gen_c07(uint64_t seed, uint64_t run, const std::string &tier, Scenario &s)
+  {
+    const uint64_t rs = hash_mix(seed, run);
+    Rng rng = stream(rs, "workload");
+    Rng brng = stream(rs, "buggify");
+    s.property = "C07";
+    s.seed = seed;
+    s.run = run;
+    const bool slabs = rng.chance(0.65);
+    GenWorld g = slabs ? gen_slab_world(rng) : gen_surface_world(rng);
+    s.generator = slabs ? "c07/slab" : "c07/surface";
+    const std::string path = "/simfs/c07.wb";
+    s.files[path] = g.json;
+    const WorldInfo w = analyse_world(path, g.json);
+    // buggify: a seeded non-empty subset of the sites that matter for this file
+    unsigned mask = 0;
+    const unsigned candidates = slabs ? ((1u << 1) | (1u << 2) | (1u << 3) | (1u << 4)) : ((1u << 5) | (1u << 6) | (1u << 7) | (1u << 8));
+    while (mask == 0)
+      for (int b = 1; b <= 8; ++b)
+        if (((candidates >> b) & 1u) && brng.chance(0.6))
+          mask |= (1u << b);
+    Op ca;
+    ca.op = "create";
+    ca.h = 0;
+    ca.file = path;
+    Op cb = ca;
+    cb.h = 1;
+    cb.mask = mask;
+    s.ops.push_back(ca);
+    s.ops.push_back(cb);
+    const int npoints = tier == "thorough" ? 500 : 300;
+    const std::vector<Prop> base_props = {Prop{{1, 0, 0}}, Prop{{2, 0, 0}}, Prop{{2, 1, 0}}, Prop{{2, 2, 0}}, Prop{{4, 0, 0}}};
+    for (int i = 0; i < npoints; ++i)
+      {
+        double x, y, depth;
+        std::string note = "uniform";
+        const double sel = rng.real();
+        if (slabs && sel < 0.7)
+          place_near_slab(g, g.slabs[rng.below(g.slabs.size())], rng, x, y, depth, note);
+        else if (!slabs && sel < 0.7)
+          {
+            // inside/near the polygons, depth across the whole range of the surfaces
+            ProbePoint pp = probe_point(w, rng);
+            (void) pp;
+            const auto &c1 = w.coords[rng.below(w.coords.size())];
+            const auto &c2 = w.coords[rng.below(w.coords.size())];
+            const auto &c3 = w.coords[rng.below(w.coords.size())];
+            double u = rng.real(), v = rng.real();
+            if (u + v > 1)
+              {
+                u = 1 - u;
+                v = 1 - v;
+              }
+            x = c1[0] + u * (c2[0] - c1[0]) + v * (c3[0] - c1[0]);
+            y = c1[1] + u * (c2[1] - c1[1]) + v * (c3[1] - c1[1]);
+            depth = rng.real(0, 550e3);
+            note = "placed";
+          }
+        else
+          {
+            x = w.xmin + (w.xmax - w.xmin) * rng.real(-0.5, 1.5);
+            y = w.ymin + (w.ymax - w.ymin) * rng.real(-0.5, 1.5);
+            depth = rng.real(0, slabs ? 1200e3 : 600e3);
+            if (w.spherical)
+              y = std::max(-89.9, std::min(89.9, y));
+          }
+        if (w.spherical)
+          depth = std::min(depth, 0.9 * w.radius);
+        if (depth < 0)
+          depth = 0;
+        Op a;
+        a.op = "q3";
+        a.h = 0;
+        natural_to_query(w, x, y, depth, a.p);
+        a.d = depth;
+        a.props = base_props;
+        if (rng.chance(0.1))
+          a.props.push_back(Prop{{5, 0, 0}});
+        a.eq = "p" + std::to_string(i);
+        a.note = note;
+        Op b = a;
+        b.h = 1;
+        b.mask = mask;
+        if (mask & (1u << 8))
+          {
+            a.tol = 1e-9;
+            b.tol = 1e-9;
+          }
+        s.ops.push_back(a);
+        s.ops.push_back(b);
+      }
+    return true;
+  }
+
+  // ------------------------------------------------------------------ C15
+  bool gen_c15(uint64_t seed, uint64_t run, const std::string &tier, Scenario &s)
+  {
+    const uint64_t rs = hash_mix(seed, run);
+    Rng rng = stream(rs, "workload");
+    s.property = "C15";
+    s.seed = seed;
+    s.run = run;
+    s.engine_model = true;
+    const auto &cat = corpus();
+    const auto &rnd_corpus = corpus_buildable(true, true);
+    const auto &plain_corpus = corpus_buildable(false, false);
+    GenWorld g;
+    WorldInfo w;
+    bool predicted = false;
+    if (rng.chance(0.8) || rnd_corpus.empty())
+      {
+        g = gen_random_world(rng);
+        w = analyse_world("/simfs/random.wb", g.json);
+        predicted = g.rnd.present;
+        s.generator = predicted ? "c15/box" : "c15/line";
+      }
+    else
+      {
+        w = cat[rnd_corpus[rng.below(rnd_corpus.size())]];
+        w.name = "/simfs/" + w.name;
+        s.generator = "c15/corpus";
+      }
+    s.files[w.name] = w.content;
+    // an unrelated world
+    WorldInfo u = plain_corpus.empty() ? w : cat[plain_corpus[rng.below(plain_corpus.size())]];
+    u.name = "/simfs/other_" + u.name.substr(u.name.find_last_of('/') + 1);
+    s.files[u.name] = u.content;
+
+    static const unsigned long seeds[] = {0ul, 1ul, 2ul, 1000ul, 2147483648ul, 4294967295ul, 4294967296ul, 4294967301ul};
+    const unsigned long sa = rng.chance(0.7) ? seeds[rng.below(8)] : static_cast<unsigned long>(rng.next() >> rng.below(40));
+    unsigned long sc = rng.chance(0.7) ? seeds[rng.below(8)] : static_cast<unsigned long>(rng.next() >> rng.below(40));
+    if (rng.chance(0.15))
+      sc = sa + 4294967296ul; // same seed modulo 2^32: mt19937 seeding makes these worlds identical
+    if (sc == sa)
+      sc = sa + 1;
+    const long fseed = s.generator == "c15/corpus" ? -2 : g.file_seed;
+    // effective seeds equal? (file seed >= 0 overrides the constructor argument)
+    const bool c_same = fseed >= 0 || (fseed == -1 && (sa & 0xfffffffful) == (sc & 0xfffffffful));
+    const bool c_known = fseed != -2;
+
+    auto create = [&](int h, const std::string &file, unsigned long sd)
+    {
+      Op op;
+      op.op = "create";
+      op.h = h;
+      op.file = file;
+      op.seed = sd;
+      return op;
+    };
+    // the query sequence
+    const int n = static_cast<int>(tier == "thorough" ? rng.range(20, 150) : rng.range(10, 60));
+    std::vector<Op> Q;
+    const RandomMeta &m = g.rnd;
+    for (int i = 0; i < n; ++i)
+      {
+        Op q;
+        q.op = "q3";
+        double x, y, depth;
+        bool inside = false;
+        if (predicted)
+          {
+            inside = rng.chance(0.7);
+            const double ex = m.x1 - m.x0, ey = m.y1 - m.y0, ed = m.max_depth - m.min_depth;
+            if (inside)
+              {
+                x = m.x0 + ex * rng.real(0.02, 0.98);
+                y = m.y0 + ey * rng.real(0.02, 0.98);
+                depth = m.min_depth + ed * rng.real(0.02, 0.98);
+              }
+            else
+              {
+                // clearly outside: beyond the box or below it
+                x = m.x0 + ex * rng.real(0.02, 0.98);
+                y = m.y0 + ey * rng.real(0.02, 0.98);
+                depth = m.min_depth + ed * rng.real(0.02, 0.98);
+                const int how = static_cast<int>(rng.below(3));
+                if (how == 0)
+                  x = rng.chance(0.5) ? m.x0 - ex * rng.real(0.05, 0.5) : m.x1 + ex * rng.real(0.05, 0.5);
+                else if (how == 1)
+                  y = rng.chance(0.5) ? m.y0 - ey * rng.real(0.05, 0.5) : m.y1 + ey * rng.real(0.05, 0.5);
+                else
+                  depth = m.max_depth + ed * rng.real(0.05, 1.0);
+              }
+            natural_to_query(w, x, y, depth, q.p);
+            q.d = depth;
+          }
+        else
+          {
+            const ProbePoint pp = probe_point(w, rng);
+            for (int k = 0; k < 3; ++k)
+              q.p[k] = pp.p3[k];
+            q.d = pp.depth;
+            if (w.has_cs && rng.chance(0.3))
+              {
+                q.op = "q2";
+                q.p[0] = pp.p2[0];
+                q.p[1] = pp.p2[1];
+                q.p[2] = 0;
+              }
+          }
+        // the request: at most one grains block, a few other properties
+        long draws = 0;
+        const int np = static_cast<int>(rng.range(1, 4));
+        bool have_grains = false;
+        for (int k = 0; k < np; ++k)
+          {
+            const double sel = rng.real();
+            if (sel < 0.45 && !have_grains)
+              {
+                have_grains = true;
+                static const unsigned ks[] = {0, 1, 2, 3, 5, 10, 50};
+                const unsigned kk = ks[rng.below(rng.chance(0.9) ? 6 : 7)];
+                unsigned comp = static_cast<unsigned>(rng.below(3));
+                if (predicted && m.grains_present && rng.chance(0.8))
+                  comp = m.grain_comps[rng.below(m.grain_comps.size())];
+                q.props.push_back(Prop{{3, comp, kk}});
+                // orientation validity is only demanded where the generator knows that every grains model
+                // of the file is a random one with an orthonormal basis (corpus files contain uniform models
+                // with user-supplied matrices that are not rotations)
+                q.gc.on = (s.generator != "c15/corpus");
+                q.gc.rot = true;
+                if (predicted && m.grains_present)
+                  {
+                    for (size_t ci = 0; ci < m.grain_comps.size(); ++ci)
+                      if (m.grain_comps[ci] == comp)
+                        {
+                          if (inside)
+                            {
+                              draws += static_cast<long>(kk) * 6 + (m.grain_sizes[ci] < 0 ? static_cast<long>(kk) * 2 : 0);
+                              q.gc.inside = kk > 0;
+                              q.gc.sum1 = m.normalize[ci] && kk > 0;
+                              q.gc.fixed = !m.normalize[ci] && m.grain_sizes[ci] >= 0;
+                              q.gc.sizes = {m.grain_sizes[ci]};
+                            }
+                        }
+                  }
+              }
+            else if (sel < 0.7)
+              {
+                unsigned comp = static_cast<unsigned>(rng.below(5));
+                if (predicted && m.comp_present && rng.chance(0.7))
+                  comp = m.comp_comps[rng.below(m.comp_comps.size())];
+                q.props.push_back(Prop{{2, comp, 0}});
+                if (predicted && m.comp_present)
+                  for (size_t ci = 0; ci < m.comp_comps.size(); ++ci)
+                    if (m.comp_comps[ci] == comp && inside)
+                      draws += 2;
+              }
+            else if (sel < 0.85)
+              q.props.push_back(Prop{{1, 0, 0}});
+            else if (sel < 0.95)
+              q.props.push_back(Prop{{4, 0, 0}});
+            else
+              q.props.push_back(Prop{{5, 0, 0}});
+          }
+        if (predicted && m.comp_present)
+          {
+            // bounds of the random composition: the file uses min value[0], max value[0] for every listed composition
+            bool only_one = true;
+            int ncomp = 0;
+            for (const auto &p : q.props)
+              if (p[0] == 2)
+                ++ncomp;
+            only_one = ncomp >= 1;
+            if (only_one && inside)
+              {
+                q.comp_check = true;
+                q.comp_lo = m.comp_min[0];
+                q.comp_hi = m.comp_max[0];
+              }
+          }
+        q.draws = predicted ? draws : -1;
+        if (rng.chance(0.03))
+          {
+            q.props.push_back(Prop{{9, 0, 0}}); // a request that throws
+            q.draws = -1;
+          }
+        Q.push_back(q);
+      }
+    // lay the history out: A contiguous or interleaved, B interleaved with C and the unrelated world
+    s.ops.push_back(create(0, w.name, sa));
+    if (rng.chance(0.5))
+      s.ops.push_back(create(3, u.name, 1));
+    const bool a_first = rng.chance(0.5);
+    std::vector<Op> seqA, seqB, seqC;
+    bool neq_done = false;
+    for (int i = 0; i < n; ++i)
+      {
+        Op a = Q[static_cast<size_t>(i)];
+        a.h = 0;
+        a.eq = "q" + std::to_string(i);
+        Op b = a;
+        b.h = 1;
+        Op c = Q[static_cast<size_t>(i)];
+        c.h = 2;
+        c.eq.clear();
+        if (c_known && c_same)
+          c.eq = a.eq; // same effective seed: the sibling is a third twin
+        else if (c_known && !neq_done && Q[static_cast<size_t>(i)].draws > 0 && (!m.grains_present || !m.deflected || m.min_deflection > 0.01))
+          {
+            // different seeds give different draws (first random request of the history)
+            a.neq = "first_random";
+            c.neq = "first_random";
+            neq_done = true;
+          }
+        if (!(c_known && c_same) && neq_done && c.neq.empty())
+          c.draws = Q[static_cast<size_t>(i)].draws; // engine model still applies to the sibling
+        seqA.push_back(a);
+        seqB.push_back(b);
+        seqC.push_back(c);
+      }
+    auto unrelated = [&]()
+    {
+      Op o;
+      const double sel = rng.real();
+      if (sel < 0.5)
+        {
+          o.op = "q3";
+          o.h = 3;
+          const ProbePoint pp = probe_point(u, rng);
+          for (int k = 0; k < 3; ++k)
+            o.p[k] = pp.p3[k];
+          o.d = pp.depth;
+          o.props = random_props(u, rng, 4, true);
+        }
+      else if (sel < 0.75)
+        o = create(3, u.name, static_cast<unsigned long>(rng.below(10)));
+      else
+        {
+          o.op = "destroy";
+          o.h = 3;
+        }
+      return o;
+    };
+    if (a_first)
+      {
+        for (auto &a : seqA)
+          s.ops.push_back(a);
+        s.ops.push_back(create(1, w.name, sa));
+        s.ops.push_back(create(2, w.name, sc));
+        size_t ib = 0, ic = 0;
+        while (ib < seqB.size() || ic < seqC.size())
+          {
+            const double sel = rng.real();
+            if (sel < 0.5 && ib < seqB.size())
+              s.ops.push_back(seqB[ib++]);
+            else if (sel < 0.8 && ic < seqC.size())
+              s.ops.push_back(seqC[ic++]);
+            else if (sel < 0.9)
+              s.ops.push_back(unrelated());
+            else if (ib >= seqB.size() && ic < seqC.size())
+              s.ops.push_back(seqC[ic++]);
+            else if (ib < seqB.size())
+              s.ops.push_back(seqB[ib++]);
+          }
+      }
+    else
+      {
+        s.ops.push_back(create(1, w.name, sa));
+        s.ops.push_back(create(2, w.name, sc));
+        size_t ia = 0, ib = 0, ic = 0;
+        while (ia < seqA.size() || ib < seqB.size() || ic < seqC.size())
+          {
+            const double sel = rng.real();
+            if (sel < 0.35 && ia < seqA.size())
+              s.ops.push_back(seqA[ia++]);
+            else if (sel < 0.7 && ib < seqB.size())
+              s.ops.push_back(seqB[ib++]);
+            else if (sel < 0.85 && ic < seqC.size())
+              s.ops.push_back(seqC[ic++]);
+            else if (sel < 0.92)
+              s.ops.push_back(unrelated());
+            else if (ia < seqA.size())
+              s.ops.push_back(seqA[ia++]);
+            else if (ib < seqB.size())
+              s.ops.push_back(seqB[ib++]);
+            else if (ic < seqC.size())
+              s.ops.push_back(seqC[ic++]);
+          }
+      }
+    return true;
+  }
+
+  // ------------------------------------------------------------------ C16
+  bool gen_c16(uint64_t seed, uint64_t run, const std::string &tier, Scenario &s)
+  {
+    const uint64_t rs = hash_mix(seed, run);
+    Rng rng = stream(rs, "workload");
+    Rng frng = stream(rs, "faults");
+    s.property = "C16";
+    s.seed = seed;
+    s.run = run;
+    s.generator = "c16";
+    s.engine_model = true;
+    const auto &cat = corpus();
+    const auto &all = corpus_buildable(true, false);
+    const int npairs = static_cast<int>(rng.range(1, 2));
+    int eqn = 0;
+    static const unsigned long seeds[] = {0ul, 1ul, 2ul, 1000ul, 2147483648ul, 4294967295ul, 4294967296ul, 4294967301ul};
+    struct Pair
+    {
+      WorldInfo w;
+      int hn, hw;
+      std::string kind;
+      bool alive;
+    };
+    std::vector<Pair> pairs;
+    for (int ip = 0; ip < npairs; ++ip)
+      {
+        Pair p;
+        if (rng.chance(0.35) || all.empty())
+          {
+            GenWorld g = rng.chance(0.5) ? gen_rich_world(rng, false) : gen_random_world(rng);
+            p.w = analyse_world("gen.wb", g.json);
+          }
+        else
+          p.w = cat[all[rng.below(all.size())]];
+        p.w.name = "/simfs/p" + std::to_string(ip) + "_" + p.w.name;
+        s.files[p.w.name] = p.w.content;
+        p.hn = 2 * ip;
+        p.hw = 2 * ip + 1;
+        p.kind = rng.chance(0.6) ? "c" : "cpp";
+        p.alive = false;
+        pairs.push_back(p);
+      }
+    auto create_pair = [&](Pair &p)
+    {
+      Op n;
+      n.op = "create";
+      n.kind = "native";
+      n.h = p.hn;
+      n.file = p.w.name;
+      n.seed = rng.chance(0.7) ? seeds[rng.below(8)] : static_cast<unsigned long>(rng.next() >> rng.below(40));
+      const double sel = rng.real();
+      if (sel < 0.45)
+        {
+          n.has_outdir = (p.kind == "c" && rng.chance(0.5)) ? -1 : 0;
+          n.outdir_null = (p.kind == "c" && rng.chance(0.5));
+          if (!n.outdir_null)
+            n.outdir = rng.chance(0.5) ? "" : "out/";
+        }
+      else
+        {
+          n.has_outdir = 1;
+          static const char *dirs[] = {"", "out/", "/simfs/deep/dir/", "o/", "x"};
+          const size_t d = rng.below(6);
+          n.outdir_null = false;
+          n.outdir = d < 5 ? dirs[d] : std::string(300, 'p') + "/";
+        }
+      if (rng.chance(0.06))
+        n.file = "/simfs/does_not_exist.wb"; // both creations must fail alike
+      else if (n.has_outdir == 1 && frng.chance(0.12))
+        {
+          simfs::Fault f;
+          f.kind = simfs::F_OPEN_FAIL;
+          f.path = n.outdir + "world_builder_declarations.tex";
+          f.a = 13; // EACCES
+          n.faults.push_back(f);
+        }
+      n.eq = "create" + std::to_string(eqn++);
+      Op w = n;
+      w.kind = p.kind;
+      w.h = p.hw;
+      s.ops.push_back(n);
+      s.ops.push_back(w);
+      p.alive = true;
+    };
+    for (auto &p : pairs)
+      create_pair(p);
+    const int nops = static_cast<int>(tier == "thorough" ? rng.range(10, 80) : rng.range(8, 40));
+    for (int i = 0; i < nops; ++i)
+      {
+        Pair &p = pairs[rng.below(pairs.size())];
+        const double sel = rng.real();
+        if (!p.alive)
+          {
+            create_pair(p);
+            continue;
+          }
+        if (sel < 0.05)
+          {
+            Op d;
+            d.op = "destroy";
+            d.h = p.hn;
+            s.ops.push_back(d);
+            d.h = p.hw;
+            s.ops.push_back(d);
+            p.alive = false;
+            continue;
+          }
+        Op q;
+        Slot dummy;
+        if (sel < 0.12 && p.kind == "c")
+          {
+            q.op = "size";
+            q.props = random_props(p.w, rng, 8, true);
+          }
+        else
+          {
+            fill_query(q, p.w, dummy, rng, true, true);
+            if (p.kind == "cpp" && q.via != "temperature" && q.via != "temperature_g" && q.via != "composition")
+              {
+                q.via = rng.chance(0.5) ? "temperature" : "composition";
+                q.props = q.via == "temperature" ? std::vector<Prop> {Prop{{1, 0, 0}}} : std::vector<Prop> {Prop{{2, static_cast<unsigned>(rng.below(5)), 0}}};
+              }
+            if (p.kind == "c" && q.via == "grains")
+              q.via = "properties";
+            if (p.kind == "c" && q.via == "temperature_g")
+              q.via = "temperature";
+          }
+        q.eq = "q" + std::to_string(eqn++);
+        q.h = p.hn;
+        Op w = q;
+        w.h = p.hw;
+        if (rng.chance(0.5))
+          {
+            s.ops.push_back(q);
+            s.ops.push_back(w);
+          }
+        else
+          {
+            s.ops.push_back(w);
+            s.ops.push_back(q);
+          }
+      }
+    return true;
+  }
+
   // ------------------------------------------------------------------ dispatch
   bool generate(const std::string &property, uint64_t seed, uint64_t run, const std::string &tier, Scenario &out)
   {
     out = Scenario();
     if (property == "C01")
       return gen_c01(seed, run, tier, out);
+    if (property == "C07")
+      return gen_c07(seed, run, tier, out);
+    if (property == "C15")
+      return gen_c15(seed, run, tier, out);
+    if (property == "C16")
+      return gen_c16(seed, run, tier, out);
     return false;
   }
 }
